@@ -167,13 +167,22 @@ class Sender:
             1: ("ptr", CSROOT, ()), 2: ("ptr", DIGEST, ()), 3: ("obj", ("S", "mtu")), 4: ("ptr", SCHED, ())})
         self.rows = rows
         new_id = roles.ser_new["id"]
-        self.member_rows = [r for r in rows if r.exit == "backedge" and not self._calls(r, new_id)]
+        # body paths of the member loop itself; loops nested in inlined callees (e.g. a counting loop inside staleness_score) end at
+        # the callee's back edge and are not member decisions
+        self.member_rows = [r for r in rows if r.exit == "backedge" and not self._calls(r, new_id)
+                            and (not isinstance(r.site, tuple) or fx.root_fn(r.site[0]) == fx.root_fn(self.fn["id"]) or r.site[0] in getattr(fx, "new_helpers", ()))]
         self.emit_rows = [r for r in rows if self._calls(r, new_id)]
         if not self.member_rows:
             raise ModelError("compute_delta/no-member-loop", "no per-member loop found before the serializer is created",
                              where(self.fn))
         self._find_bases()
         self.table = T.Table(self.member_rows, self.canon)
+        # a loop nested in the member body (e.g. a counting loop that replaced `.count()`) leaves "its iterator is exhausted" on the
+        # path: always eventually true, not an input of the decision
+        nt = self._next_term()
+        self.table.conds = [[c for c in cs if not (c[0] == "variant" and c[3] and c[2] == "None" and c[1][0] == "call" and c[1][1].endswith("::next") and c[1] != nt
+                                                   and c[1] != T.R("item"))]
+                            for cs in self.table.conds]
 
     @staticmethod
     def _calls(row, fid):
